@@ -771,6 +771,9 @@ fn dump_tables<'tcx>(tcx: TyCtxt<'tcx>) {
                         s.push_str(",\"ty\":");
                         let fty = tcx.type_of(f.did).instantiate_identity().skip_norm_wip();
                         esc(&trunc(ty_str(fty), 300), &mut s);
+                        if f.vis.is_public() {
+                            s.push_str(",\"pub\":true");
+                        }
                         s.push('}');
                     }
                     s.push_str("]}");
